@@ -339,6 +339,10 @@ func c13IsRange(n ast.Node) bool { _, ok := n.(*ast.RangeStmt); return ok }
 // outer: the expression denotes a value of the calling frame - a parameter bound to an argument
 // expression, or (function literals) a captured variable of the enclosing function.
 func (env *c13Env) outer(e ast.Expr) (*c13Env, ast.Expr) {
+	// a field of a struct value that groups values of this or a calling frame (c13_proj.go)
+	if pe, elt := env.proj(e); pe != nil {
+		return pe, elt
+	}
 	if env.up == nil {
 		return nil, nil
 	}
@@ -409,10 +413,7 @@ func c13DefinedAtDecl(f *core.FuncInfo, v *types.Var, d ast.Expr) bool {
 // isEv: the expression is the event under validation.
 func (env *c13Env) isEv(e ast.Expr) bool {
 	v := varOf(env.f, e)
-	if v == nil {
-		return false
-	}
-	if env.ev != nil && (v == env.ev || env.alias[v]) {
+	if v != nil && env.ev != nil && (v == env.ev || env.alias[v]) {
 		return true
 	}
 	if up, arg := env.outer(e); up != nil {
@@ -425,10 +426,7 @@ func (env *c13Env) isEv(e ast.Expr) bool {
 func (env *c13Env) isParentsArg(e ast.Expr) bool {
 	e = env.res(e)
 	v := varOf(env.f, e)
-	if v == nil {
-		return false
-	}
-	if env.parents != nil && v == env.parents {
+	if v != nil && env.parents != nil && v == env.parents {
 		return true
 	}
 	if up, arg := env.outer(e); up != nil {
@@ -439,12 +437,10 @@ func (env *c13Env) isParentsArg(e ast.Expr) bool {
 
 // roleOf: the role name of a variable expression (through bound parameters).
 func (env *c13Env) roleOf(e ast.Expr) string {
-	v := varOf(env.f, e)
-	if v == nil {
-		return ""
-	}
-	if r := env.vars[v]; r != "" {
-		return r
+	if v := varOf(env.f, e); v != nil {
+		if r := env.vars[v]; r != "" {
+			return r
+		}
 	}
 	if up, arg := env.outer(e); up != nil {
 		return up.roleOf(arg)
@@ -508,6 +504,10 @@ func (env *c13Env) parentElem(e ast.Expr) string {
 		if up, arg := env.outer(x); up != nil {
 			return up.parentElem(arg)
 		}
+	case *ast.SelectorExpr:
+		if up, arg := env.proj(x); up != nil {
+			return up.parentElem(arg)
+		}
 	case *ast.IndexExpr:
 		if !env.isParentsArg(x.X) {
 			return ""
@@ -525,13 +525,11 @@ func (env *c13Env) parentElem(e ast.Expr) string {
 
 // loopOfKey: the loop (of this or a calling frame) whose index variable the expression is.
 func (env *c13Env) loopOfKey(e ast.Expr) *c13Loop {
-	kv := varOf(env.f, env.res(e))
-	if kv == nil {
-		return nil
-	}
-	for _, l := range env.loops {
-		if l.key == kv {
-			return l
+	if kv := varOf(env.f, env.res(e)); kv != nil {
+		for _, l := range env.loops {
+			if l.key == kv {
+				return l
+			}
 		}
 	}
 	if up, arg := env.outer(env.res(e)); up != nil {
@@ -570,6 +568,10 @@ func (env *c13Env) parentID(e ast.Expr) string {
 			}
 		}
 		if up, arg := env.outer(x); up != nil {
+			return up.parentID(arg)
+		}
+	case *ast.SelectorExpr:
+		if up, arg := env.proj(x); up != nil {
 			return up.parentID(arg)
 		}
 	}
@@ -635,6 +637,9 @@ func (env *c13Env) atom(e ast.Expr) string {
 			if fn := fieldNameOf(f, x); strings.HasPrefix(fn, c13BaseT+".") {
 				return strings.TrimPrefix(fn, c13BaseT+".")
 			}
+		}
+		if up, arg := env.proj(x); up != nil {
+			return up.atom(c13StripSameRepr(up.f.Info(), arg))
 		}
 	}
 	return ""
